@@ -15,6 +15,10 @@ for d in sorted(os.listdir(f"{V}/seeded")):
     m = re.match(r"(C\d\d)-[A-Z]$", d)
     if m and f"seeded/{d}".startswith(only):
         jobs.append((f"seeded/{d}", f"{V}/seeded/{d}/patch.diff", [m.group(1)]))
+    elif re.match(r"R\d\d-[A-Z]$", d) and f"seeded/{d}".startswith(only):
+        # region-based seeds (round 4): the properties they break are listed in meta.json
+        meta = json.load(open(f"{V}/seeded/{d}/meta.json"))
+        jobs.append((f"seeded/{d}", f"{V}/seeded/{d}/patch.diff", meta["checks"]))
 mp = json.load(open(f"{V}/mutants/MAP.json"))
 for k in sorted(mp):
     if f"mutants/{k}".startswith(only):
